@@ -28,7 +28,14 @@
             TRUE  = schedule generation for the Go driver: environment steps (start a call, release
                     a gated callback / hook gate, tick, advance the clock) happen only when no internal
                     step is enabled ("run to quiescence"), which is what the driver can realise; `hist`
-                    records the environment steps.                                                   *)
+                    records the environment steps.
+     Sizes  the sizes a task may be added with.  The container's threshold is on the ACCUMULATED size
+            (chunkContainer: size += ck.size; size >= maxChunkSize); {1} makes it the count threshold of
+            bulkContainer / sqlx.dbInserter.  ChunkExecutor.Add(task, size) accepts any int, so 0 (a task
+            that never moves the size) and negative sizes (sizes that cancel out) are legal inputs: such
+            tasks can only leave by tick / Flush / Wait / quit, and "is there anything to execute" must be
+            a question about the tasks (cont # {}), never about the size.
+     Targets / Canon   schedule generation through named protocol situations, see Sit below.          *)
 (* Measured (TLC 1.8.0, distinct states):
      PEImplBug1   Fix=none, Routed, Thr=2        WaitCovers violated after ~500 states (11-step trace)
      PEImplBug2   Fix=none, Thr=1                WaitCovers violated after ~1 800 states (20-step trace)
@@ -41,11 +48,25 @@
      (2 prod, NT=3, Flush, 2 Waits, 2 ticks: 11 262 184, 7 min - not part of a tier)
      steering mode: PEImplGenQ 16 682 states / 264 final schedules, PEImplGenA 246 460 / 2 304,
      PEImplGenB 28 562 / 192, PEImplGenH (hook gate) 7 687 / 24, PEImplGenBad1 54 and PEImplGenBad2 28
-     schedules ending in an uncovered Wait.                                                          *)
+     schedules ending in an uncovered Wait.
+     sizes:       PEImplMCsz  Fix=inflight, Sizes={0,1}, bounds of MCfix:  92 852 (superset of MCfix's behaviours)
+                  PEImplMCszN Sizes={-1,0,1,2}: 443 710   (Sizes={0,1,2} + explicit Flush: 1 288 724, not in a tier)
+     situations (steering, Fix=inflight, Canon):
+                  PEImplGenZ  zeroOnly, Sizes={0,2}, 2 tasks:        39 518 states / 484 schedules
+                  PEImplGenZL zeroOnly, Sizes={-1,0,1,2}:           164 342 / 2 312
+                  PEImplGenR  quitRefused, 3 producers, Sizes={1,2}, 2 tasks:  10 315 / 3  (76 801 without
+                              the CONSTRAINT GoalDirected, same 3 schedules)
+                  PEImplGenO  addWhileOut, threshold 1, 3 tasks, no ticks:      3 909 / 6
+                  PEImplGenP  all situations, 3 producers, 3 tasks, Sizes={1}: 133 098 / 1 152          *)
 EXTENDS PE, Json
 
 CONSTANTS NP, Gens, Thr, NT, MaxFlush, MaxWait, MaxTick, MaxAdv, MaxPanic,
-          Fix, Routed, Hook, Steer, Emit
+          Fix, Routed, Hook, Steer, Emit,
+          Sizes,      \* sizes a task may be added with: {1} = count threshold (Bulk, user containers);
+                      \* ChunkExecutor.Add(task, size) takes any int, 0 and negative included
+          Targets,    \* names of the protocol situations (see Sit) whose schedules are wanted; {} = none
+          Canon       \* TRUE = producers are interchangeable: a producer that has not called yet may
+                      \* only start when all lower-numbered ones have (generation only)
 
 VARIABLES
   cont,       \* container: set of tasks                      (guarded by pe.lock)
@@ -61,13 +82,15 @@ VARIABLES
   last,       \* per flusher
   tickq,      \* per flusher: ticker channel content 0..1
   arg,        \* per producer: task being added
+  sz,         \* per task: the size it was added with (0 until added)
+  hits,       \* the situations of Targets this behaviour has passed through
   gen,        \* flusher generations spawned so far
   now,        \* virtual clock in units of "more than idleRound intervals"
   cnt,        \* environment budget counters
   hist        \* environment steps so far (generation only; hidden by the VIEW)
 
-ivars == <<cont, guarded, inflight, wg, barrier, cmd, pc, ret, batch, ok, commanded, last, tickq, arg, gen, now, cnt>>
-vars == <<ivars, pvars, hist>>
+ivars == <<cont, guarded, inflight, wg, barrier, cmd, pc, ret, batch, ok, commanded, last, tickq, arg, sz, gen, now, cnt>>
+vars == <<ivars, pvars, hits, hist>>
 
 Prod == 1..NP
 Fl == (NP + 1)..(NP + Gens)
@@ -77,6 +100,18 @@ NoBatch == [ts |-> {}, by |-> 0]
 Upd(f, x, v) == [f EXCEPT ![x] = v]
 Log(r) == hist' = IF Emit THEN Append(hist, r) ELSE hist
 Bump(c) == cnt' = [cnt EXCEPT ![c] = @ + 1]
+\* symmetry breaking between producers (Canon): cnt.used = highest producer that has made a call
+Fresh(p) == Canon => p <= cnt.used + 1
+Use(p) == IF Canon /\ p > cnt.used THEN p ELSE cnt.used
+BumpBy(c, p) == cnt' = [cnt EXCEPT ![c] = @ + 1, !.used = Use(p)]
+
+\* size sets with negative members (a cfg file cannot write -1): used as `Sizes <- SzNeg`
+SzNeg == {-1, 1, 2}
+SzAll == {-1, 0, 1, 2}
+
+\* accumulated size of a set of tasks (chunkContainer.size; with Sizes = {1} the number of tasks)
+RECURSIVE SumSz(_)
+SumSz(S) == IF S = {} THEN 0 ELSE LET x == CHOOSE y \in S : TRUE IN sz[x] + SumSz(S \ {x})
 
 IInit ==
   /\ PInit
@@ -89,36 +124,40 @@ IInit ==
   /\ last = [f \in Fl |-> 0]
   /\ tickq = [f \in Fl |-> 0]
   /\ arg = [p \in Prod |-> 0]
+  /\ sz = [t \in 1..NT |-> 0]
+  /\ hits = {}
   /\ gen = 0 /\ now = 0
-  /\ cnt = [t |-> 0, flush |-> 0, wait |-> 0, tick |-> 0, adv |-> 0, panic |-> 0]
+  /\ cnt = [t |-> 0, flush |-> 0, wait |-> 0, tick |-> 0, adv |-> 0, panic |-> 0, used |-> 0]
   /\ hist = <<>>
 
 -----------------------------------------------------------------------------
 (* environment steps: calls start *)
 
 StartAdd(p) ==
-  /\ pc[p] = "idle" /\ cnt.t < NT
+  /\ pc[p] = "idle" /\ cnt.t < NT /\ Fresh(p)
   /\ LET t == cnt.t + 1 IN
        /\ AddStartEff(p, t)
        /\ arg' = Upd(arg, p, t)
-       /\ Log([op |-> "add", p |-> p, t |-> t])
+       /\ \E z \in Sizes :
+            /\ sz' = Upd(sz, t, z)
+            /\ Log([op |-> "add", p |-> p, t |-> t, z |-> z])
   /\ pc' = Upd(pc, p, "a_lock")
-  /\ Bump("t")
+  /\ cnt' = [cnt EXCEPT !.t = @ + 1, !.used = Use(p)]
   /\ UNCHANGED <<cont, guarded, inflight, wg, barrier, cmd, ret, batch, ok, commanded, last, tickq, gen, now>>
 
 StartFlush(p) ==
-  /\ pc[p] = "idle" /\ cnt.flush < MaxFlush
+  /\ pc[p] = "idle" /\ cnt.flush < MaxFlush /\ Fresh(p)
   /\ pc' = Upd(pc, p, "fl_enter") /\ ret' = Upd(ret, p, "idle")
-  /\ Bump("flush") /\ Log([op |-> "flush", p |-> p]) /\ PSkip
-  /\ UNCHANGED <<cont, guarded, inflight, wg, barrier, cmd, batch, ok, commanded, last, tickq, arg, gen, now>>
+  /\ BumpBy("flush", p) /\ Log([op |-> "flush", p |-> p]) /\ PSkip
+  /\ UNCHANGED <<cont, guarded, inflight, wg, barrier, cmd, batch, ok, commanded, last, tickq, arg, sz, gen, now>>
 
 StartWait(p) ==
-  /\ pc[p] = "idle" /\ cnt.wait < MaxWait
+  /\ pc[p] = "idle" /\ cnt.wait < MaxWait /\ Fresh(p)
   /\ WaitStartEff(p)
   /\ pc' = Upd(pc, p, "fl_enter")
   /\ ret' = Upd(ret, p, IF Fix = "inflight" THEN "w_spin" ELSE "w_bar")
-  /\ Bump("wait") /\ Log([op |-> "wait", p |-> p])
-  /\ UNCHANGED <<cont, guarded, inflight, wg, barrier, cmd, batch, ok, commanded, last, tickq, arg, gen, now>>
+  /\ BumpBy("wait", p) /\ Log([op |-> "wait", p |-> p])
+  /\ UNCHANGED <<cont, guarded, inflight, wg, barrier, cmd, batch, ok, commanded, last, tickq, arg, sz, gen, now>>
 
 -----------------------------------------------------------------------------
 (* Add *)
@@ -128,7 +167,7 @@ StartWait(p) ==
 ALock(p) ==
   /\ pc[p] = "a_lock"
   /\ LET c2 == cont \cup {arg[p]}
-         full == Cardinality(c2) >= Thr
+         full == SumSz(c2) >= Thr       \* AddTask's verdict: accumulated size (count when Sizes = {1})
          spawn == ~guarded
          f == NP + gen + 1
      IN /\ spawn => gen < Gens
@@ -144,7 +183,7 @@ ALock(p) ==
                   /\ PSkip
         /\ pc' = [s \in All |-> IF s = p THEN (IF full THEN "a_send" ELSE "a_ret")
                                 ELSE IF spawn /\ s = f THEN "f_init" ELSE pc[s]]
-  /\ UNCHANGED <<wg, barrier, cmd, ret, ok, commanded, last, tickq, arg, now, cnt, hist>>
+  /\ UNCHANGED <<wg, barrier, cmd, ret, ok, commanded, last, tickq, arg, sz, now, cnt, hist>>
 
 \* pe.commander <- vals   (buffer of one)
 ASend(p) ==
@@ -153,21 +192,21 @@ ASend(p) ==
   /\ batch' = Upd(batch, p, NoBatch)
   /\ pc' = Upd(pc, p, IF Hook THEN "a_hook" ELSE "a_conf")
   /\ PSkip
-  /\ UNCHANGED <<cont, guarded, inflight, wg, barrier, ret, ok, commanded, last, tickq, arg, gen, now, cnt, hist>>
+  /\ UNCHANGED <<cont, guarded, inflight, wg, barrier, ret, ok, commanded, last, tickq, arg, sz, gen, now, cnt, hist>>
 
 \* the gate point between the send and `<-pe.confirmChan` (environment step when steering)
 AHook(p) ==
   /\ pc[p] = "a_hook"
   /\ pc' = Upd(pc, p, "a_conf")
   /\ Log([op |-> "hook", p |-> p]) /\ PSkip
-  /\ UNCHANGED <<cont, guarded, inflight, wg, barrier, cmd, ret, batch, ok, commanded, last, tickq, arg, gen, now, cnt>>
+  /\ UNCHANGED <<cont, guarded, inflight, wg, barrier, cmd, ret, batch, ok, commanded, last, tickq, arg, sz, gen, now, cnt>>
 
 \* Add returns
 ARet(p) ==
   /\ pc[p] = "a_ret"
   /\ AddEndEff(p, arg[p])
   /\ pc' = Upd(pc, p, "idle")
-  /\ UNCHANGED <<cont, guarded, inflight, wg, barrier, cmd, ret, batch, ok, commanded, last, tickq, arg, gen, now, cnt, hist>>
+  /\ UNCHANGED <<cont, guarded, inflight, wg, barrier, cmd, ret, batch, ok, commanded, last, tickq, arg, sz, gen, now, cnt, hist>>
 
 -----------------------------------------------------------------------------
 (* Flush = enterExecution; RemoveAll under the lock; executeTasks  (any process) *)
@@ -177,7 +216,7 @@ FlEnter(s) ==
   /\ wg' = wg + 1
   /\ pc' = Upd(pc, s, "fl_take")
   /\ PSkip
-  /\ UNCHANGED <<cont, guarded, inflight, barrier, cmd, ret, batch, ok, commanded, last, tickq, arg, gen, now, cnt, hist>>
+  /\ UNCHANGED <<cont, guarded, inflight, barrier, cmd, ret, batch, ok, commanded, last, tickq, arg, sz, gen, now, cnt, hist>>
 
 FlTake(s) ==
   /\ pc[s] = "fl_take"
@@ -192,14 +231,14 @@ FlTake(s) ==
             /\ pc' = Upd(pc, s, "ex_start")
             /\ TakeEff(cont, FALSE)
             /\ UNCHANGED wg
-  /\ UNCHANGED <<guarded, inflight, barrier, cmd, ret, commanded, last, tickq, arg, gen, now, cnt, hist>>
+  /\ UNCHANGED <<guarded, inflight, barrier, cmd, ret, commanded, last, tickq, arg, sz, gen, now, cnt, hist>>
 
 \* container.Execute(tasks) is entered: observable execStart
 ExStart(s) ==
   /\ pc[s] = "ex_start"
   /\ ExecStartEff(s, batch[s].ts)
   /\ pc' = Upd(pc, s, "ex_run")
-  /\ UNCHANGED <<cont, guarded, inflight, wg, barrier, cmd, ret, batch, ok, commanded, last, tickq, arg, gen, now, cnt, hist>>
+  /\ UNCHANGED <<cont, guarded, inflight, wg, barrier, cmd, ret, batch, ok, commanded, last, tickq, arg, sz, gen, now, cnt, hist>>
 
 \* the callback returns or panics (RunSafe recovers), then the deferred doneExecution
 \* (environment step when steering: the driver's gate)
@@ -212,7 +251,7 @@ ExRun(s) ==
   /\ wg' = wg - 1
   /\ batch' = Upd(batch, s, NoBatch)
   /\ pc' = Upd(pc, s, ret[s])
-  /\ UNCHANGED <<cont, guarded, inflight, barrier, cmd, ret, ok, commanded, last, tickq, arg, gen, now>>
+  /\ UNCHANGED <<cont, guarded, inflight, barrier, cmd, ret, ok, commanded, last, tickq, arg, sz, gen, now>>
 
 -----------------------------------------------------------------------------
 (* Wait = Flush; [repair: until inflight = 0]; wgBarrier.Guard(waitGroup.Wait) *)
@@ -220,26 +259,26 @@ ExRun(s) ==
 WSpin(p) ==
   /\ pc[p] = "w_spin" /\ inflight = 0
   /\ pc' = Upd(pc, p, "w_bar") /\ PSkip
-  /\ UNCHANGED <<cont, guarded, inflight, wg, barrier, cmd, ret, batch, ok, commanded, last, tickq, arg, gen, now, cnt, hist>>
+  /\ UNCHANGED <<cont, guarded, inflight, wg, barrier, cmd, ret, batch, ok, commanded, last, tickq, arg, sz, gen, now, cnt, hist>>
 
 WBar(p) ==
   /\ pc[p] = "w_bar" /\ barrier = 0
   /\ barrier' = p
   /\ pc' = Upd(pc, p, "w_wg") /\ PSkip
-  /\ UNCHANGED <<cont, guarded, inflight, wg, cmd, ret, batch, ok, commanded, last, tickq, arg, gen, now, cnt, hist>>
+  /\ UNCHANGED <<cont, guarded, inflight, wg, cmd, ret, batch, ok, commanded, last, tickq, arg, sz, gen, now, cnt, hist>>
 
 WWg(p) ==
   /\ pc[p] = "w_wg" /\ wg = 0
   /\ barrier' = 0
   /\ pc' = Upd(pc, p, "w_ret") /\ PSkip
-  /\ UNCHANGED <<cont, guarded, inflight, wg, cmd, ret, batch, ok, commanded, last, tickq, arg, gen, now, cnt, hist>>
+  /\ UNCHANGED <<cont, guarded, inflight, wg, cmd, ret, batch, ok, commanded, last, tickq, arg, sz, gen, now, cnt, hist>>
 
 \* Wait returns: observable waitEnd
 WRet(p) ==
   /\ pc[p] = "w_ret"
   /\ WaitEndEff(p)
   /\ pc' = Upd(pc, p, "idle")
-  /\ UNCHANGED <<cont, guarded, inflight, wg, barrier, cmd, ret, batch, ok, commanded, last, tickq, arg, gen, now, cnt, hist>>
+  /\ UNCHANGED <<cont, guarded, inflight, wg, barrier, cmd, ret, batch, ok, commanded, last, tickq, arg, sz, gen, now, cnt, hist>>
 
 -----------------------------------------------------------------------------
 (* backgroundFlush goroutine *)
@@ -248,7 +287,7 @@ FInit(f) ==
   /\ pc[f] = "f_init"
   /\ last' = Upd(last, f, now)
   /\ pc' = Upd(pc, f, "f_loop") /\ PSkip
-  /\ UNCHANGED <<cont, guarded, inflight, wg, barrier, cmd, ret, batch, ok, commanded, tickq, arg, gen, now, cnt, hist>>
+  /\ UNCHANGED <<cont, guarded, inflight, wg, barrier, cmd, ret, batch, ok, commanded, tickq, arg, sz, gen, now, cnt, hist>>
 
 \* case vals := <-pe.commander: commanded = true
 FRecv(f) ==
@@ -257,7 +296,7 @@ FRecv(f) ==
   /\ cmd' = <<>>
   /\ commanded' = Upd(commanded, f, TRUE)
   /\ pc' = Upd(pc, f, "f_c1") /\ PSkip
-  /\ UNCHANGED <<cont, guarded, inflight, wg, barrier, ret, ok, last, tickq, arg, gen, now, cnt, hist>>
+  /\ UNCHANGED <<cont, guarded, inflight, wg, barrier, ret, ok, last, tickq, arg, sz, gen, now, cnt, hist>>
 
 Dec == inflight' = inflight - 1 /\ UNCHANGED wg
 Enter == barrier = 0 /\ wg' = wg + 1 /\ UNCHANGED inflight
@@ -266,13 +305,13 @@ FC1(f) ==
   /\ pc[f] = "f_c1"
   /\ IF Fix = "inflight" THEN Enter ELSE Dec
   /\ pc' = Upd(pc, f, "f_c2") /\ PSkip
-  /\ UNCHANGED <<cont, guarded, barrier, cmd, ret, batch, ok, commanded, last, tickq, arg, gen, now, cnt, hist>>
+  /\ UNCHANGED <<cont, guarded, barrier, cmd, ret, batch, ok, commanded, last, tickq, arg, sz, gen, now, cnt, hist>>
 
 FC2(f) ==
   /\ pc[f] = "f_c2"
   /\ IF Fix = "inflight" THEN Dec ELSE Enter
   /\ pc' = Upd(pc, f, "f_c3") /\ PSkip
-  /\ UNCHANGED <<cont, guarded, barrier, cmd, ret, batch, ok, commanded, last, tickq, arg, gen, now, cnt, hist>>
+  /\ UNCHANGED <<cont, guarded, barrier, cmd, ret, batch, ok, commanded, last, tickq, arg, sz, gen, now, cnt, hist>>
 
 \* pe.confirmChan <- Placeholder: rendezvous with SOME producer blocked in <-pe.confirmChan
 FC3(f) ==
@@ -284,13 +323,13 @@ FC3(f) ==
   /\ ret' = Upd(ret, f, "f_c4")
   /\ ok' = Upd(ok, f, TRUE)
   /\ PSkip
-  /\ UNCHANGED <<cont, guarded, inflight, wg, barrier, cmd, batch, commanded, last, tickq, arg, gen, now, cnt, hist>>
+  /\ UNCHANGED <<cont, guarded, inflight, wg, barrier, cmd, batch, commanded, last, tickq, arg, sz, gen, now, cnt, hist>>
 
 FC4(f) ==
   /\ pc[f] = "f_c4"
   /\ last' = Upd(last, f, now)
   /\ pc' = Upd(pc, f, "f_loop") /\ PSkip
-  /\ UNCHANGED <<cont, guarded, inflight, wg, barrier, cmd, ret, batch, ok, commanded, tickq, arg, gen, now, cnt, hist>>
+  /\ UNCHANGED <<cont, guarded, inflight, wg, barrier, cmd, ret, batch, ok, commanded, tickq, arg, sz, gen, now, cnt, hist>>
 
 \* case <-ticker.Chan()
 FTick(f) ==
@@ -300,7 +339,7 @@ FTick(f) ==
        THEN commanded' = Upd(commanded, f, FALSE) /\ UNCHANGED <<pc, ret>>
        ELSE pc' = Upd(pc, f, "fl_enter") /\ ret' = Upd(ret, f, "f_t2") /\ UNCHANGED commanded
   /\ PSkip
-  /\ UNCHANGED <<cont, guarded, inflight, wg, barrier, cmd, batch, ok, last, arg, gen, now, cnt, hist>>
+  /\ UNCHANGED <<cont, guarded, inflight, wg, barrier, cmd, batch, ok, last, arg, sz, gen, now, cnt, hist>>
 
 \* after the tick's Flush: flushed something -> last = now; else shallQuit(last): idle long enough and,
 \* under the lock, inflight = 0 -> guarded = false, return (deferred: ticker.Stop(), final Flush)
@@ -318,7 +357,7 @@ FT2(f) ==
          ELSE /\ pc' = Upd(pc, f, "f_loop")
               /\ UNCHANGED <<guarded, tickq, ret, last>>
   /\ PSkip
-  /\ UNCHANGED <<cont, inflight, wg, barrier, cmd, batch, ok, commanded, arg, gen, now, cnt, hist>>
+  /\ UNCHANGED <<cont, inflight, wg, barrier, cmd, batch, ok, commanded, arg, sz, gen, now, cnt, hist>>
 
 -----------------------------------------------------------------------------
 (* environment: ticker and clock *)
@@ -330,13 +369,13 @@ Tick ==
   /\ tickq[Cur] = 0
   /\ tickq' = Upd(tickq, Cur, 1)
   /\ Bump("tick") /\ Log([op |-> "tick"]) /\ PSkip
-  /\ UNCHANGED <<cont, guarded, inflight, wg, barrier, cmd, pc, ret, batch, ok, commanded, last, arg, gen, now>>
+  /\ UNCHANGED <<cont, guarded, inflight, wg, barrier, cmd, pc, ret, batch, ok, commanded, last, arg, sz, gen, now>>
 
 Adv ==
   /\ cnt.adv < MaxAdv
   /\ now' = now + 1
   /\ Bump("adv") /\ Log([op |-> "adv"]) /\ PSkip
-  /\ UNCHANGED <<cont, guarded, inflight, wg, barrier, cmd, pc, ret, batch, ok, commanded, last, tickq, arg, gen>>
+  /\ UNCHANGED <<cont, guarded, inflight, wg, barrier, cmd, pc, ret, batch, ok, commanded, last, tickq, arg, sz, gen>>
 
 -----------------------------------------------------------------------------
 Gate == \/ \E s \in All : ExRun(s)
@@ -353,7 +392,50 @@ MNext == Proto \/ Gate \/ Calls \/ Tick \/ Adv
 \* steering: the environment (driver) moves only when the library is quiescent
 SNext == Proto \/ (~ENABLED Proto /\ (Gate \/ Calls \/ Tick \/ Adv))
 
-INext == IF Steer THEN SNext ELSE MNext
+-----------------------------------------------------------------------------
+(* Protocol situations: the places where one conjunct of the hand-off protocol is what decides.  A
+   situation is a predicate on a step (unprimed = before, primed = after).  `hits` collects the
+   situations of Targets a behaviour has passed through; in steering mode TLC prints the environment
+   schedules that lead the REAL code through them (PrintHits), so that every such decision of the
+   implementation is exercised by a replayed schedule, not only met by chance in stress runs.
+
+     quitRefused   an idle flusher, idle for long enough, may not quit because a batch is on its way to
+                   it (shallQuit's inflight check is what keeps the batch from being stranded)
+     addWhileOut   a task enters the container while a batch that has left it has not yet reached the
+                   callback (parked in the commander, held by a producer that cannot send, held by the
+                   flusher in front of the barrier): RemoveAll must have handed over an isolated batch
+     enterBlocked  somebody must not enter the wait group because a Wait holds the barrier
+     tickSkipped   a tick that does not flush because the flusher was commanded since the last one
+     quitFlush     the deferred Flush of a flusher that quits picks up tasks added after its decision
+     waitSpin      a Wait that has flushed finds a batch in flight (the repair's extra wait decides)
+     zeroOnly      a flush (tick / Flush / Wait / quit) meets a container whose tasks weigh nothing:
+                   only `cont # {}`, not the accumulated size, says there is something to execute    *)
+OutBatch == cmd # <<>> \/ \E s \in All : batch[s].ts # {} /\ pc[s] # "ex_run"
+Sit(n) ==
+  CASE n = "quitRefused"  -> \E f \in Fl : /\ pc[f] = "f_t2" /\ pc'[f] = "f_loop" /\ ~ok[f]
+                                           /\ now > last[f] /\ inflight > 0 /\ f < NP + Gens
+    [] n = "addWhileOut"  -> \E p \in Prod : pc[p] = "a_lock" /\ pc'[p] # "a_lock" /\ OutBatch
+    [] n = "enterBlocked" -> barrier # 0 /\ (\E s \in All : pc[s] = "fl_enter" \/ (Fix = "inflight" /\ pc[s] = "f_c1"))
+                             /\ ~ENABLED Proto
+    [] n = "tickSkipped"  -> \E f \in Fl : pc[f] = "f_loop" /\ tickq[f] = 1 /\ tickq'[f] = 0 /\ commanded[f]
+    [] n = "quitFlush"    -> \E f \in Fl : pc[f] = "fl_take" /\ ret[f] = "f_dead" /\ pc'[f] = "ex_start"
+    [] n = "waitSpin"     -> \E p \in Prod : pc[p] = "w_spin" /\ inflight > 0 /\ ~ENABLED Proto
+    [] n = "zeroOnly"     -> \E s \in All : pc[s] = "fl_take" /\ pc'[s] = "ex_start" /\ SumSz(cont) <= 0
+    [] OTHER -> FALSE
+\* generation only (CONSTRAINT): do not extend a behaviour that has hit nothing and cannot hit any more -
+\* a necessary condition per situation, from the environment budget that is left (TRUE = no pruning)
+InTickBranch(f) == ret[f] = "f_t2" /\ pc[f] \in {"fl_enter", "fl_take", "ex_start", "ex_run", "f_t2"}
+CanStill(n) ==
+  CASE n = "quitRefused" ->
+         /\ (inflight > 0 \/ cnt.t < NT \/ \E p \in Prod : pc[p] = "a_lock")
+         /\ \E f \in Fl : /\ (now > last[f] \/ cnt.adv < MaxAdv)
+                          /\ (InTickBranch(f) \/ tickq[f] = 1 \/ cnt.tick < MaxTick)
+    [] OTHER -> TRUE
+GoalDirected == hits # {} \/ \E n \in Targets : CanStill(n)
+
+HitsUpd == hits' = hits \cup {n \in Targets : Sit(n)}
+
+INext == (IF Steer THEN SNext ELSE MNext) /\ HitsUpd
 ISpec == IInit /\ [][INext]_vars
 
 StepOf(s) == \/ (s \in Prod /\ (ALock(s) \/ ASend(s) \/ ARet(s) \/ WSpin(s) \/ WBar(s) \/ WWg(s) \/ WRet(s) \/ AHook(s)))
@@ -361,7 +443,7 @@ StepOf(s) == \/ (s \in Prod /\ (ALock(s) \/ ASend(s) \/ ARet(s) \/ WSpin(s) \/ W
              \/ (s \in Fl /\ (FInit(s) \/ FRecv(s) \/ FC1(s) \/ FC2(s) \/ FC3(s) \/ FC4(s) \/ FTick(s) \/ FT2(s)))
 \* every process keeps taking its library steps, every callback eventually returns, every gate is
 \* eventually opened; the environment (new calls, ticks, clock) owes nothing
-FairSpec == ISpec /\ \A s \in All : WF_vars(StepOf(s))
+FairSpec == ISpec /\ \A s \in All : WF_vars(StepOf(s) /\ HitsUpd)
 
 -----------------------------------------------------------------------------
 (* Layer-P guards as invariants of the implementation (refinement I => P) *)
@@ -406,12 +488,15 @@ CallsReturn == \A p \in Prod : (pc[p] # "idle") ~> (pc[p] = "idle")
 
 -----------------------------------------------------------------------------
 (* schedule generation *)
-View == <<ivars, pvars>>
+View == <<ivars, pvars, hits>>
 Quiet == ~ENABLED Proto
 \* one environment schedule per distinct quiescent state (shortest, BFS)
 PrintHist == (Emit /\ Len(hist) > 0 /\ Quiet) => PrintT("TRACE " \o ToJson(hist))
 \* only complete schedules: the environment's budget is used up as well
 PrintFinal == (Emit /\ Quiet /\ ~ENABLED (Gate \/ Calls \/ Tick \/ Adv)) => PrintT("TRACE " \o ToJson(hist))
+\* complete schedules that passed through at least one wanted situation (one per final state and set of situations)
+PrintHits == (Emit /\ Quiet /\ hits # {} /\ ~ENABLED (Gate \/ Calls \/ Tick \/ Adv))
+               => PrintT("TRACE " \o ToJson([hits |-> hits, steps |-> hist]))
 \* the schedules at whose end a Wait is about to return uncovered (design-level counterexamples to reproduce)
 PrintBad  == (Emit /\ \E p \in Prod : pc[p] = "w_ret" /\ ~WaitEndOK(p)) => PrintT("TRACE " \o ToJson(hist))
 =============================================================================
